@@ -186,10 +186,27 @@ def misspell(data, name):
     return name[:i] + name[i].swapcase() + name[i + 1 :] if name[i].swapcase() != name[i] else name + "_"
 
 
+def attribute_like_names():
+    """Unknown names that happen to be attributes of the tables the tool looks names up in (helper methods, dunder names)."""
+    from tpmstream.spec.structures.constants import TPM_CC
+
+    names = {n for n in dir(TPM_CC)} | {n for n in dir(dict)} | {"fields", "Any", "all_types", "mro"}
+    return sorted(n for n in names if n and not n.startswith("-"))
+
+
 def refusal_case(ctx, L, cli, ex):
     case, data = ex
-    which = data.draw(st.sampled_from(["type", "command", "response-without-command", "example"]))
+    which = data.draw(st.sampled_from(["type", "command", "response-without-command", "example", "command-attr", "example-attr"]))
     valid_types = set(O._REGISTRY) | {"Command", "Response", "CommandResponseStream"}
+    if which in ("command-attr", "example-attr"):
+        bad = data.draw(st.sampled_from([n for n in attribute_like_names() if n not in L.commands and n not in valid_types]))
+        if which == "command-attr":
+            args = ["convert", cli.file(case.data), "--in", "binary", "--type", "Response", "--command", bad]
+            which = "command"
+        else:
+            args = ["example", bad]
+            which = "example"
+        return _judge_refusal(ctx, cli, case, args, which)
     if which == "type":
         bad = misspell(data, case.type)
         if bad in valid_types:
@@ -209,6 +226,10 @@ def refusal_case(ctx, L, cli, ex):
         if bad in L.commands or bad in valid_types:
             return
         args = ["example", bad]
+    _judge_refusal(ctx, cli, case, args, which)
+
+
+def _judge_refusal(ctx, cli, case, args, which):
     payload = {"args": [a if not a.startswith(cli.dir) else "<file>" for a in args], "file": case.data}
     ctx.case((tuple(payload["args"]), case.data), True, sample={"args": payload["args"]})
     ctx.count(f"refusal:{which}")
@@ -260,6 +281,61 @@ def type_case(ctx, L, cli, case):
         return
     if sorted(got) != sorted(expected):
         ctx.problem("C19:type:list", f"`tpmstream type` on {content.hex()[:120]} lists {sorted(set(got) - set(expected))[:5]} in addition and misses {sorted(set(expected) - set(got))[:5]} (strict decodes: {len(expected)}, listed: {len(got)})", payload)
+
+
+def ambiguous_files(L):
+    """Files that decode strictly under many types at once: tiny inputs, and the 10-byte session-less commands without
+    handles and parameters, which are also header-only failed responses of every command code."""
+    out = [b"\x00", b"\x01", b"\x00\x00", b"\x00\x0b", b"\x00\x00\x00\x00", b"\x40\x00\x00\x07"]
+    for name, e in sorted(L.commands.items()):
+        if not L.struct(e["command_handles"])["fields"] and not L.struct(e["command_params"])["fields"]:
+            out.append(b"\x80\x01\x00\x00\x00\x0a" + e["code"].to_bytes(4, "big"))
+    out.append(b"\x80\x01\x00\x00\x00\x0a\x00\x00\x01\x01")  # a failed response (TPM_RC_FAILURE)
+    return out
+
+
+def pty_case(ctx, L, cli, case, columns):
+    """`convert` with its output on a (pseudo) terminal of a given width: still exactly the library's lines."""
+    import fcntl
+    import pty
+    import struct
+    import termios
+
+    content = case.data
+    kind, want = lib_convert("binary", "pretty", case.type, content, case.cc)
+    if kind != "text" or case.enc or (case.cc is not None and case.cc not in L.cc_by_code):
+        return
+    args = ["convert", cli.file(content), "--in", "binary", "--type", case.type]
+    if case.type == "Response":
+        args += ["--command", L.cc_by_code[case.cc][0]]
+    master, slave = pty.openpty()
+    fcntl.ioctl(slave, termios.TIOCSWINSZ, struct.pack("HHHH", 50, columns, 0, 0))
+    env = dict(os.environ, PYTHONPATH=O.SRC, PYTHONHASHSEED="0", PYTHONIOENCODING="utf-8", COLUMNS=str(columns), TERM="xterm")
+    p = subprocess.Popen([sys.executable, "-m", "tpmstream"] + args, stdout=slave, stderr=subprocess.PIPE, stdin=subprocess.DEVNULL, env=env, cwd=cli.dir)
+    os.close(slave)
+    chunks = []
+    while True:
+        try:
+            b = os.read(master, 65536)
+        except OSError:
+            break
+        if not b:
+            break
+        chunks.append(b)
+    code = p.wait(timeout=300)
+    err = p.stderr.read().decode("utf-8", "replace")
+    os.close(master)
+    out = b"".join(chunks).decode("utf-8", "replace").replace("\r\n", "\n")
+    payload = {"args": ["convert", "<file>"] + args[2:], "file": content, "type": case.type, "cc": case.cc, "in": "binary", "out": "pretty", "terminal_columns": columns}
+    ctx.case(("pty", columns, case.type, content), True, sample={"args": payload["args"], "terminal_columns": columns, "file_hex": content.hex()[:80]})
+    ctx.count(f"pty-runs:{columns}")
+    if code != 0:
+        ctx.problem("C19:convert:exit", f"`tpmstream {' '.join(payload['args'])}` on a {columns}-column terminal: exit status {code}, stderr {err[-300:]!r}", payload)
+        return
+    if norm_text(out) != norm_text(want):
+        a, b2 = norm_text(out).splitlines(), norm_text(want).splitlines()
+        d = next((i for i, (x, y) in enumerate(zip(a, b2)) if x != y), min(len(a), len(b2)))
+        ctx.problem("C19:convert:terminal", f"on a {columns}-column terminal output line {d} is {a[d] if d < len(a) else None!r}, the library produces {b2[d] if d < len(b2) else None!r}", payload)
 
 
 def example_case(ctx, L, cli, name):
@@ -334,6 +410,21 @@ def run_shard(ctx):
         ctx.run_given(st.tuples(gen.messages(L), st.data()), lambda ex: typed_case(ctx, L, cli, ex), ctx.share(64 if q else 800), name="convert-typed")
         ctx.run_given(st.tuples(gen.structures(L), st.data()), lambda ex: refusal_case(ctx, L, cli, ex), ctx.share(40 if q else 300), name="refusals")
         ctx.run_given(st.one_of(gen.structures(L), gen.commands(L, sessions=None)), lambda c: type_case(ctx, L, cli, c), ctx.share(8 if q else 120), name="type")
+
+        class _F:
+            def __init__(self, data):
+                self.data = data
+
+        amb = ambiguous_files(L)
+        for k, data in enumerate(amb):
+            if k % ctx.nshards == ctx.shard and (not q or (k + ctx.seed) % 2 == 0 or len(data) == 10):
+                ctx.run_plain(lambda data=data: type_case(ctx, L, cli, _F(data)), "type-ambiguous")
+        if ctx.shard in (3, 7, 11):
+            collected = []
+            ctx.run_given(gen.messages(L), collected.append, 2, name="for-pty")
+            for c in collected:
+                for columns in (80, 180):
+                    ctx.run_plain(lambda c=c, columns=columns: pty_case(ctx, L, cli, c, columns), "pty")
         names = sorted(L.commands)
         if q:
             import hashlib
